@@ -21,7 +21,9 @@ NAMES = ["foo", "bar", "src/a.c", "src/b.c", "out/x", "a/b/c", "README", ".hidde
          # the same names in another letter case (matching is case-sensitive)
          "Foo", "readme", "SRC/a.c", "src/A.C",
          # a directory named like its parent
-         "src/src/a.c", "dst/dst/foo", "out/out/x"]
+         "src/src/a.c", "dst/dst/foo", "out/out/x",
+         # a backslash is an ordinary character of a name, not a separator
+         "src\\a.c", "dst\\foo", "a\\b\\c", "out\\x"]
 PATTERNS = ["*", "foo", "*.c", "src/*", "?ar", "[fb]*", "[!f]*", "[a-c]*", "a/b/*", "out/*", "nomatch", "src/a.c",
             "*o*", "dst/*", "pkg/*", "a.c", "b.c", "x", "c", "FOO", "readme", "README", "*.C", "SRC/*", "[F]*", "Src/*",
             # character classes without any * or ?
